@@ -120,6 +120,7 @@ fn main() {
         }
         Some("probe-alltypes") => build::probe_alltypes_main(&args[2]),
         Some("costprobe") => debug::costprobe(),
+        Some("nestcase") => storage::nestcase_main(&args[2], args[3].parse().expect("depth")),
         Some("inst") => debug::inst(&args[2], &args[3], args.get(4).map(|s| s.as_str()).unwrap_or("")),
         Some("hashprobe") => {
             let mut orders = std::collections::BTreeSet::new();
